@@ -101,10 +101,18 @@ func Case(w *vt.W, rng *rand.Rand, id, maxLen int) {
 	minID := []float64{0.8, 0.85, 0.9, 0.94}[rng.Intn(4)]
 	self := rng.Intn(4) == 0
 	lt := 2000 + rng.Intn(maxLen-1999)
+	nplants := 1 + rng.Intn(3)
+	// settings for which Optimise cannot keep the filter's seed as long as the minimum hit length (it halves
+	// the seed): the aligner must still apply the minimum hit length, so a repeat between the two lengths is
+	// planted as well (not demanded, but whatever is reported for it must be a sound hit)
+	shortSeed := rng.Intn(8) == 0 && maxLen >= 5000
+	if shortSeed {
+		minLen, minID, self, nplants = 200, 0.75, false, 1
+		lt = 4500 + rng.Intn(maxLen-4499)
+	}
 	T := randSeq(rng, lt)
 	var Q []byte
 	var plants []Plant
-	nplants := 1 + rng.Intn(3)
 	// maxLn bounds the copy (indels included) so that it fits its slot
 	place := func(tsrc []byte, ta, maxLn int) (int, int, bool, int, int, []byte) {
 		ln := minLen*3/2 + rng.Intn(minLen*2)
@@ -155,6 +163,9 @@ func Case(w *vt.W, rng *rand.Rand, id, maxLen int) {
 		Q = T
 	} else {
 		Q = randSeq(rng, 2000+rng.Intn(maxLen-1999))
+		if shortSeed {
+			Q = randSeq(rng, 4500+rng.Intn(maxLen-4499))
+		}
 		used := 0
 		family := rng.Intn(3) == 0
 		for i := 0; i < nplants; i++ {
@@ -191,6 +202,22 @@ func Case(w *vt.W, rng *rand.Rand, id, maxLen int) {
 			if !clash {
 				copy(Q[qa:qa+len(cp)], cp)
 				plants = append(plants, Plant{ta, ta + ln, qa, qa + len(cp), false, 2, 0, false})
+			}
+		}
+		if shortSeed {
+			// between the seed length and the minimum hit length: an exact copy of 100-150 letters
+			ln := 100 + rng.Intn(51)
+			ta := rng.Intn(len(T) - ln)
+			qa := rng.Intn(len(Q) - ln)
+			clash := false
+			for _, pl := range plants {
+				if qa < pl.QB+50 && pl.QA < qa+ln+50 {
+					clash = true
+				}
+			}
+			if !clash {
+				copy(Q[qa:qa+ln], T[ta:ta+ln])
+				plants = append(plants, Plant{ta, ta + ln, qa, qa + ln, false, 0, 0, true})
 			}
 		}
 		if rng.Intn(2) == 0 && minID <= 0.9 {
